@@ -165,8 +165,8 @@ static void wr(const char *s) {
     if (mfd < 0) { mfd = memfd_create("c20", 0); snprintf(mpath, sizeof mpath, "/proc/self/fd/%d", mfd); }
     if (ftruncate(mfd, 0) < 0 || pwrite(mfd, s, strlen(s), 0) < 0) abort();
 }
-static int got_argc; static char got_argv[12][64]; static int ncb;
-static QAC_CB(cb1) { (void)userdata; ncb++; got_argc = data->argc; for (int i = 0; i < data->argc && i < 12; i++) snprintf(got_argv[i], 64, "%s", data->argv[i]); return NULL; }
+static int got_argc; static char got_argv[48][64]; static int ncb;
+static QAC_CB(cb1) { (void)userdata; ncb++; got_argc = data->argc; for (int i = 0; i < data->argc && i < 48; i++) snprintf(got_argv[i], 64, "%s", data->argv[i]); return NULL; }
 
 /* ---- (i) type / count space ---- */
 static const char *V[] = {"0", "-12", "23", "1.5", "-0.5", "1.", ".5", "-", "1.2.3", "abc",
@@ -229,7 +229,7 @@ static void type_case(uint32_t take, int numtake, const int *eff, const char **a
     vc_case_end();
 }
 static void run_actype(int part) {
-    char key[200]; int eff[8]; const char *args[8];
+    char key[200]; int eff[48]; const char *args[48];
     if (part == 0) {
         /* single argument: every type (declared per-argument and as the AA default) x every value x line 1..3 */
         for (int t = 0; t < 4; t++) for (int viaaa = 0; viaaa < 2; viaaa++) for (int v = 0; v < NV; v++) for (int ln = 1; ln <= 3; ln++) {
@@ -243,6 +243,13 @@ static void run_actype(int part) {
             snprintf(key, sizeof key, "actype:count:%d:%d", t, n);
             for (int i = 0; i < n; i++) { args[i] = "x"; eff[i] = T_STR; }
             type_case(takes[t], t == 6 ? 0xFF : t, eff, args, n, 1, key);
+        }
+        /* many arguments: the argument vector grows at 4, 12, 20, 28, ... entries */
+        static char an[48][8];
+        for (int n = 0; n <= 40; n++) {
+            snprintf(key, sizeof key, "actype:many:%d", n);
+            for (int i = 0; i < n; i++) { snprintf(an[i], 8, "a%d", i); args[i] = an[i]; eff[i] = T_STR; }
+            type_case(QAC_TAKEALL, 0xFF, eff, args, n, 1 + (n & 1), key);
         }
         vc_sample("opt Off  [TAKE1|A1_BOOL] -> argv[1]=\"0\";  opt 1.  [TAKE1|A1_FLOAT] -> rejected with path:line");
     } else if (part == 1) {
@@ -336,17 +343,17 @@ static QAC_CB(cbs) {
     strcpy(o, "\n"); return NULL;
 }
 /* item kinds: 0 x(ALL) 1 r(ROOT) 2 d(D only) 3 h(D|H) 4 <D>(ROOT) 5 <H>(in D) 6 u (unregistered) 7 X (wrong case of x) */
-static const char *NAME[] = {"x", "r", "d", "h", "Dir", "Host", "u", "X"};
-static unsigned long long ALLOW[] = {0, 1, 2, 2 | 4, 1, 2, 0, 0}; static unsigned long long SID[] = {0, 0, 0, 0, 2, 4, 0, 0};
+static const char *NAME[] = {"x", "r", "d", "h", "Dir", "Host", "u", "X", "DIR"};
+static unsigned long long ALLOW[] = {0, 1, 2, 2 | 4, 1, 2, 0, 0, 1}; static unsigned long long SID[] = {0, 0, 0, 0, 2, 4, 0, 0, 2};
 static int choice[64], nchoice, pos, radix[64];
 static int pick(int n) { int p = pos; if (pos >= nchoice) choice[nchoice++] = 0; pos++; radix[p] = n; return choice[p]; }
 static int failed, count, count_alt, lineno, sflags, s_maxitems, uses_special;
 static void block(int level, unsigned long long cursec_, unsigned long long ss, const char *parents, int maxdepth) {
     int nitems = pick(s_maxitems + 1);
     for (int i = 0; i < nitems && !failed; i++) {
-        int k = pick(maxdepth > 0 ? 8 : 6); if (maxdepth <= 0 && k >= 4) k += 2;   /* leaf level: no section kinds */
+        int k = pick(maxdepth > 0 ? ((sflags == QAC_CASEINSENSITIVE) ? 9 : 8) : 6); if (maxdepth <= 0 && k >= 4) k += 2;   /* leaf level: no section kinds; kind 8 = <DIR ..>, the Dir section in another case */
         char line[64]; lineno++;
-        if (k < 4 || k >= 6) {
+        if (k < 4 || k == 6 || k == 7) {
             sprintf(line, "%s v%d\n", NAME[k], lineno); strcat(doc, line);
             int known = 1; const char *cbname = NAME[k];
             if (k == 6) { known = 0; uses_special = 1; }
